@@ -177,6 +177,9 @@ def random_script(rng):
         elif x < 0.94:
             if conns[k][1] == "n":
                 ops.append(rng.choice(["G%d" % k, "G%d" % k, "X%d" % k]))
+            elif rng.random() < 0.5 and k in called and k not in dropped:
+                # one round of the handshake choreography: client flight, then the server's poll
+                ops += ["S%d" % k, "P%d" % k]
             else:
                 ops.append("S%d" % k if rng.random() < 0.9 else "X%d" % k)
         else:
